@@ -45,3 +45,7 @@ def run(ctx):
     ctx.guard(builtin_method_lint, ctx, "C17.builtin-method")
     from ..rules_misc import k21_match_overrides
     ctx.guard(k21_match_overrides, ctx, "C17")
+    from ..rules_ast import match_slot_rule
+    ctx.guard(match_slot_rule, ctx, "C17.match-slot")
+    from ..rules_ast import call_arity_rule
+    ctx.guard(call_arity_rule, ctx, "C17.call-arity")
